@@ -27,6 +27,8 @@ structure Conf where
   fn : Int := 2
   seed : Int := 0
   fail : List Int := []
+  /-- the caller's context is already cancelled when the source is created -/
+  pre : Bool := false
 
 def parseConf (ws : List String) : Conf := Id.run do
   let mut c : Conf := {}
@@ -41,6 +43,7 @@ def parseConf (ws : List String) : Conf := Id.run do
       | "fn" => c := { c with fn := v.toInt?.getD 2 }
       | "seed" => c := { c with seed := v.toInt?.getD 0 }
       | "fail" => c := { c with fail := (v.splitOn ",").filterMap String.toInt? }
+      | "pre" => c := { c with pre := v != "0" }
       | _ => pure ()
     | _ => pure ()
   return c
@@ -120,15 +123,17 @@ def applyMove (P : Fn Int Int) (p : S) (mv : String) : List (S × String) :=
   | 'v' => [(p, "(" ++ ",".intercalate ((callLog p).map toString) ++ ")")]
   | _ => [(p, "bad")]
 
-def check (P : Fn Int Int) (p0 : S) (moves obs : List String) : String := Id.run do
-  let mut states := rest P [p0]
+def check (P : Fn Int Int) (p0 : S) (moves obs : List String) (pre : Bool := false) : String := Id.run do
+  -- `pre`: the cancel happens before the goroutine takes its first step (the script's first move, `x`, repeats it)
+  let start := if pre then (envNext P p0 .cancel).map (·.1) else [p0]
+  let mut states := rest P start
   match obs with
   | [] => return "MISMATCH no observations"
   | o0 :: orest =>
     let want0 := (o0.drop 2).toString
     if states.any fun p => !atRest P p then return "MISMATCH model does not come to rest initially"
     states := states.filter fun p => !p.panicked && lens p == want0
-    if states.isEmpty then return s!"MISMATCH at init: impl={o0} model={(rest P [p0]).map lens}"
+    if states.isEmpty then return s!"MISMATCH at init: impl={o0} model={(rest P start).map lens}"
     let mut os := orest
     let mut idx := 0
     for mv in moves do
@@ -163,8 +168,8 @@ def run (line : String) : String :=
       let c := parseConf (words cfgS)
       let P := mkFn c
       match c.stage with
-      | "Emit" => check P (initEmit P.mode c.cap) moves obs
-      | "Unfold" => check P (initUnfold P.mode c.cap c.seed) moves obs
+      | "Emit" => check P (initEmit P.mode c.cap) moves obs c.pre
+      | "Unfold" => check P (initUnfold P.mode c.cap c.seed) moves obs c.pre
       | s => s!"bad-op unknown source stage {s}"
     | _ => "bad-op"
   | _ => "bad-op"
